@@ -39,8 +39,9 @@ def V(v):
 def axes_of(shape, tuples=True):
     nd = len(shape)
     out = [None] + list(range(-nd, nd))
-    if tuples:
-        out += [()] + [c for k in (2, 3) for c in itertools.combinations(range(nd), k)]
+    if tuples:      # (), and every 2-/3-subset of the axes in every mix of non-negative and negative spelling, e.g. (0, -2), (-3, 1)
+        out += [()] + [tuple(a - nd * m for a, m in zip(c, neg)) for k in (2, 3) for c in itertools.combinations(range(nd), k)
+                       for neg in itertools.product((0, 1), repeat=k)]
     return out
 
 
@@ -214,15 +215,45 @@ def _reduce_inputs(fns, shapes, rng, keepdims=True, tuples=True, dtypes=("int64"
                     yield {"fn": fn, "args": [A(rng, shape, dt)], "kwargs": kw}
 
 
+MIXED_AXES = [(0, -2), (0, -1), (1, -1), (-3, 1), (-2, 2), (-1, -2), (-3, -1), (-3, -2), (-3, -2, -1), (0, -2, 2), (-3, 1, -1)]
+CLOSE = {"int64": [1000000, 1000001, 1000002, 1000000, 1000002, 250000, 250001, 250002, 250001, 1000003],
+         "float64": [2.0, 2.0 + 1e-9, 2.0 - 1e-9, 2.0, 2.0 + 1e-6, 2.0 - 1e-6, 2.0 + 1e-9, 2000000.0, 2000000.002, 2000000.0]}
+
+
+def _mixed_axis_inputs(fns, rng):
+    """always generated (not thinned): axis tuples mixing negative and non-negative entries, and all-negative ones, on 3-d arrays"""
+    for fn in fns:
+        for axis in MIXED_AXES:
+            for kd in (None, False, True):
+                kw = dict({"axis": list(axis)}, **({} if kd is None else {"keepdims": kd}))
+                yield {"fn": fn, "args": [A(rng, rng.choice([(2, 3, 2), (2, 2, 2), (2, 1, 3)]), rng.choice(["int64", "float64"]))], "kwargs": kw}
+
+
+def _close_inputs(fns, rng, tier, keepdims):
+    """distinct but numerically close values (large ints differing by 1..3, floats differing by 1e-9..1e-6 relative) mixed with ties"""
+    for _ in range(count(tier, 1, 6)):
+        for fn in fns:
+            for shape in [(3,), (4,), (6,), (2, 3), (3, 3), (4, 2)]:
+                for axis in [None] + list(range(-len(shape), len(shape))):
+                    dt = rng.choice(["int64", "float64"])
+                    pool = [v for v in CLOSE[dt] if (v > 1e5) == (rng.random() < 0.5)] if rng.random() < 0.5 else CLOSE[dt]
+                    kw = dict({} if axis is None else {"axis": axis}, **({"keepdims": True} if keepdims and rng.random() < 0.3 else {}))
+                    yield {"fn": fn, "args": [A(rng, shape, dt, pool=pool or CLOSE[dt])], "kwargs": kw}
+
+
 def gen_reduce(tier, rng):
+    yield from _mixed_axis_inputs(["sum", "prod", "mean", "any", "all"], rng)
     yield from thin(tier, rng, _reduce_inputs(["sum", "prod", "mean", "cumsum", "any", "all"], SHAPES, rng), 0.3)
 
 
 def gen_extreme(tier, rng):
+    yield from _mixed_axis_inputs(["amax", "amin"], rng)
+    yield from _close_inputs(["amax", "amin", "max", "min"], rng, tier, keepdims=True)
     yield from thin(tier, rng, _reduce_inputs(["amax", "amin", "max", "min"], SHAPES, rng), 0.3)
 
 
 def gen_arg(tier, rng):
+    yield from _close_inputs(["argmax", "argmin"], rng, tier, keepdims=False)
     for _ in range(count(tier, 2, 20)):
         yield from _reduce_inputs(["argmax", "argmin"], SHAPES, rng, keepdims=False, tuples=False)
     for fn in ("argmax", "argmin"):     # explicit ties
@@ -241,10 +272,13 @@ def gen_count(tier, rng):
 BOUNDS = ("bounded: arrays of 0-3 dimensions with extents <=4, values from 8 ints / 8 halves with repeats and zeros, "
           "int64/float64 (bool where meaningful); ")
 family("reductions.axis_keepdims", gen_reduce, ["sum", "prod", "mean", "cumsum", "any", "all"],
-       BOUNDS + "axis None/every int incl. negative/()/every 2- and 3-subset, keepdims absent/False/True; thorough = exhaustive grid")
-family("amax_amin.axis_keepdims", gen_extreme, ["amax", "amin", "max", "min"], BOUNDS + "same axis/keepdims grid as the reductions")
+       BOUNDS + "axis None/every int incl. negative/()/every 2- and 3-subset in every mix of negative and non-negative entries (e.g. "
+       "(0,-2), (-3,1), (-3,-2,-1)), keepdims absent/False/True; 11 mixed/all-negative tuples on 3-d arrays always; thorough = exhaustive grid")
+family("amax_amin.axis_keepdims", gen_extreme, ["amax", "amin", "max", "min"], BOUNDS + "same axis/keepdims grid as the reductions; plus "
+       "close values (ints 1000000..1000003 and 250000..250002, floats 2+-1e-9, 2+-1e-6, 2e6 vs 2e6+0.002) with ties, 1-d/2-d, every axis")
 family("argmax_argmin.first_occurrence", gen_arg, ["argmax", "argmin"],
-       BOUNDS + "axis None and every int axis, ties frequent by construction; result must be numpy's (first occurrence) index")
+       BOUNDS + "axis None and every int axis, ties frequent by construction; result must be numpy's (first occurrence) index; plus "
+       "close values (ints 1000000..1000003 and 250000..250002, floats 2+-1e-9, 2+-1e-6, 2e6 vs 2e6+0.002) with ties, 1-d/2-d, every axis")
 family("count_nonzero_nonzero", gen_count, ["count_nonzero", "nonzero"], BOUNDS + "count_nonzero on the reduction grid, nonzero on 1-3-d arrays")
 
 
